@@ -441,3 +441,13 @@ var Kinds = []kind{
 		MapTok: func(v interface{}) (string, bool) { return "", false },
 		Zero:   func(v interface{}) bool { return v.(int64) == 0 }},
 }
+
+// bytesnn: a byte slice in a NOT NULL column; an empty, non-nil slice is an empty blob, not NULL.
+func init() {
+	b := Kinds[kindIdx("bytes")]
+	b.Name, b.Tag, b.NGen = "bytesnn", "not null", 3
+	b.Gen = func(k int) interface{} {
+		return [][]byte{{}, {0x00, 0xff, 0x27, 0x22}, []byte("nn ' \" \\")}[k%3]
+	}
+	Kinds = append(Kinds, b)
+}
